@@ -68,6 +68,10 @@ the stream of evaluation results was empty (the driver rejects such a run). -/
 structure Ext where
   evals : List Rat
   starved : Bool := false
+  /-- `self.parent.best_mean_reward` as the callback being invoked would read it: `none` = its `parent` is not an
+  `EvalCallback` (`StopTrainingOnRewardThreshold` / `StopTrainingOnNoModelImprovement` fail there),
+  `some none` = `-inf`, `some (some b)` = `b`. Set by `eval` around the calls of its children. -/
+  pbest : Option (Option Rat) := none
   deriving Repr
 
 /-- Take the result of the next evaluation from the external stream. -/
@@ -75,6 +79,9 @@ def Ext.pop (x : Ext) : Rat × Ext :=
   match x.evals with
   | [] => (0, { x with starved := true })
   | m :: rest => (m, { x with evals := rest })
+
+/-- Set the `parent.best_mean_reward` the next callee will read. -/
+def Ext.setP (x : Ext) (b : Option (Option Rat)) : Ext := { x with pbest := b }
 
 /-- Callback tree with per-node attributes.
 `nc` = `n_calls`, `nt` = `num_timesteps`, `loc` = step described by `self.locals`. -/
@@ -92,9 +99,20 @@ inductive Cb where
   | eval (id freq nc nt : Nat) (best : Option Rat) (onBest after : Cb)
   /-- `CheckpointCallback(save_freq = freq)` -/
   | checkpoint (id freq nc nt : Nat)
-  /-- `StopTrainingOnMaxEpisodes`: `maxTotal = max_episodes * n_envs`, `nEp` = `n_episodes`;
+  /-- `StopTrainingOnMaxEpisodes(max_episodes = maxEpisodes)`; `_init_callback` fixes the budget
+  `max_episodes * n_envs` (`nEnvs` = `training_env.num_envs`); `nEp` = `n_episodes`;
   reads `locals["dones"]` (`loc = 0`: the key is missing, the code fails an assertion) -/
-  | maxEp (id maxTotal nEp nc nt loc : Nat)
+  | maxEp (id maxEpisodes nEnvs nEp nc nt loc : Nat)
+  /-- `ConvertCallback(f)`: an old-style function callback `f(locals, globals) -> bool`. The function is
+  invoked at step events only; it counts its own invocations (`fc`) and answers `False` when that count is in
+  `stops`; what it can read is `locals` (and through it the model's counter). `nc` is the `n_calls` of the
+  `ConvertCallback` object (a fresh object — `nc = 0` — on every `learn` when the bare function is passed). -/
+  | fn (id : Nat) (stops : List Nat) (fc nc nt loc : Nat)
+  /-- `StopTrainingOnRewardThreshold(reward_threshold = thr)` (child of an `EvalCallback`) -/
+  | rewardThr (id : Nat) (thr : Rat) (nc nt : Nat)
+  /-- `StopTrainingOnNoModelImprovement(max_no_improvement_evals = maxNo, min_evals = minEvals)`,
+  `lastBest` = `last_best_mean_reward` (`none` = `-inf`), `noImp` = `no_improvement_evals` -/
+  | noImprove (id maxNo minEvals : Nat) (lastBest : Option Rat) (noImp nc nt : Nat)
   deriving Repr, Inhabited
 
 /-- Result of invoking an entry point. -/
@@ -125,6 +143,18 @@ def everyNDue (n last num : Nat) : Bool := decide (last + n ≤ num)
 /-- `self.n_calls % self.save_freq == 0` / `eval_freq > 0 and self.n_calls % self.eval_freq == 0` -/
 def checkpointDue (freq nc : Nat) : Bool := nc % freq == 0
 def evalDue (freq nc : Nat) : Bool := decide (0 < freq) && nc % freq == 0
+
+/-- `a > b` on `best_mean_reward` values (`none` = `-inf`). -/
+def gtBest : Option Rat → Option Rat → Bool
+  | some a, some b => decide (b < a)
+  | some _, none => true
+  | none, _ => false
+
+/-- `self.parent.best_mean_reward < self.reward_threshold` -/
+def belowThr (b : Option Rat) (thr : Rat) : Bool :=
+  match b with
+  | none => true
+  | some v => decide (v < thr)
 
 /-- Number of finished episodes `StopTrainingOnMaxEpisodes` adds at a step: `sum(locals["dones"])`. -/
 abbrev Dones := Nat → Nat
@@ -167,8 +197,10 @@ def Cb.call (dones : Dones) (c : Call) : Cb → Ext → Res
       { cb := .everyN id n last nc nt r.cb, ext := r.ext, ok := true, evs := r.evs, fail := r.fail }
     | .step num =>
       if everyNDue n last num then
-        let r := ch.call dones c x
-        { cb := .everyN id n num (nc + 1) num r.cb, ext := r.ext, ok := r.ok, evs := r.evs, fail := r.fail }
+        -- the child's `parent` is this EveryNTimesteps, which has no `best_mean_reward`
+        let r := ch.call dones c (x.setP none)
+        { cb := .everyN id n num (nc + 1) num r.cb, ext := r.ext.setP x.pbest, ok := r.ok, evs := r.evs,
+          fail := r.fail }
       else
         { cb := .everyN id n last (nc + 1) num ch, ext := x, ok := true, evs := [] }
     | _ =>
@@ -192,21 +224,23 @@ def Cb.call (dones : Dones) (c : Call) : Cb → Ext → Res
       if evalDue freq (nc + 1) then
         -- `evaluate_policy(...)`: the next mean reward of the external stream
         let m := x.pop.1
-        let x1 := x.pop.2
         let ev : Event := ⟨id, .evalRun, nc + 1, num, 0, true⟩
         if isNewBest best m then
+          -- `self.best_mean_reward = float(mean_reward)` happens before the children are stepped
+          let x1 := x.pop.2.setP (some (some m))
           let r1 := onBest.call dones c x1
           if r1.ok then
             let r2 := after.call dones c r1.ext
-            { cb := .eval id freq (nc + 1) num (some m) r1.cb r2.cb, ext := r2.ext, ok := r2.ok,
+            { cb := .eval id freq (nc + 1) num (some m) r1.cb r2.cb, ext := r2.ext.setP x.pbest, ok := r2.ok,
               evs := ev :: (r1.evs ++ r2.evs), fail := r1.fail || r2.fail }
           else
             -- `continue_training and self._on_event()`: the after-eval child is skipped
-            { cb := .eval id freq (nc + 1) num (some m) r1.cb after, ext := r1.ext, ok := false,
+            { cb := .eval id freq (nc + 1) num (some m) r1.cb after, ext := r1.ext.setP x.pbest, ok := false,
               evs := ev :: r1.evs, fail := r1.fail }
         else
+          let x1 := x.pop.2.setP (some best)
           let r2 := after.call dones c x1
-          { cb := .eval id freq (nc + 1) num best onBest r2.cb, ext := r2.ext, ok := r2.ok,
+          { cb := .eval id freq (nc + 1) num best onBest r2.cb, ext := r2.ext.setP x.pbest, ok := r2.ok,
             evs := ev :: r2.evs, fail := r2.fail }
       else
         { cb := .eval id freq (nc + 1) num best onBest after, ext := x, ok := true, evs := [] }
@@ -218,16 +252,47 @@ def Cb.call (dones : Dones) (c : Call) : Cb → Ext → Res
       { cb := .checkpoint id freq (nc + 1) num, ext := x, ok := true,
         evs := if checkpointDue freq (nc + 1) then [⟨id, .save, nc + 1, num, 0, true⟩] else [] }
     | _ => { cb := .checkpoint id freq nc nt, ext := x, ok := true, evs := [] }
-  | .maxEp id maxTotal nEp nc nt loc, x =>
+  | .maxEp id maxEpisodes nEnvs nEp nc nt loc, x =>
     match c with
-    | .trainingStart num => { cb := .maxEp id maxTotal nEp nc num 0, ext := x, ok := true, evs := [] }
-    | .updateLocals g => { cb := .maxEp id maxTotal nEp nc nt g, ext := x, ok := true, evs := [] }
+    | .trainingStart num => { cb := .maxEp id maxEpisodes nEnvs nEp nc num 0, ext := x, ok := true, evs := [] }
+    | .updateLocals g => { cb := .maxEp id maxEpisodes nEnvs nEp nc nt g, ext := x, ok := true, evs := [] }
     | .step num =>
+      -- `self.n_episodes += np.sum(self.locals["dones"])`; continue iff `n_episodes < max_episodes * n_envs`
       let nEp' := nEp + dones loc
-      let r := decide (nEp' < maxTotal)
-      { cb := .maxEp id maxTotal nEp' (nc + 1) num loc, ext := x, ok := r, evs := [⟨id, .step, nc + 1, num, loc, r⟩],
-        fail := loc == 0 }
-    | _ => { cb := .maxEp id maxTotal nEp nc nt loc, ext := x, ok := true, evs := [] }
+      let r := decide (nEp' < maxEpisodes * nEnvs)
+      { cb := .maxEp id maxEpisodes nEnvs nEp' (nc + 1) num loc, ext := x, ok := r,
+        evs := [⟨id, .step, nc + 1, num, loc, r⟩], fail := loc == 0 }
+    | _ => { cb := .maxEp id maxEpisodes nEnvs nEp nc nt loc, ext := x, ok := true, evs := [] }
+  | .fn id stops fc nc nt loc, x =>
+    match c with
+    | .trainingStart num => { cb := .fn id stops fc nc num 0, ext := x, ok := true, evs := [] }
+    | .updateLocals g => { cb := .fn id stops fc nc nt g, ext := x, ok := true, evs := [] }
+    | .step num =>
+      let r := !(stops.contains (fc + 1))
+      { cb := .fn id stops (fc + 1) (nc + 1) num loc, ext := x, ok := r, evs := [⟨id, .step, fc + 1, num, loc, r⟩] }
+    | _ => { cb := .fn id stops fc nc nt loc, ext := x, ok := true, evs := [] }
+  | .rewardThr id thr nc nt, x =>
+    match c with
+    | .trainingStart num => { cb := .rewardThr id thr nc num, ext := x, ok := true, evs := [] }
+    | .step num =>
+      -- `bool(self.parent.best_mean_reward < self.reward_threshold)`
+      let r := belowThr (x.pbest.getD none) thr
+      { cb := .rewardThr id thr (nc + 1) num, ext := x, ok := r, evs := [⟨id, .step, nc + 1, num, 0, r⟩],
+        fail := x.pbest.isNone }
+    | _ => { cb := .rewardThr id thr nc nt, ext := x, ok := true, evs := [] }
+  | .noImprove id maxNo minEvals lastBest noImp nc nt, x =>
+    match c with
+    | .trainingStart num => { cb := .noImprove id maxNo minEvals lastBest noImp nc num, ext := x, ok := true, evs := [] }
+    | .step num =>
+      let pb := x.pbest.getD none
+      -- `if self.n_calls > self.min_evals: if parent.best > last_best: count = 0 else: count += 1; stop if count > max`
+      let counted := decide (minEvals < nc + 1)
+      let improved := gtBest pb lastBest
+      let noImp' := if counted then (if improved then 0 else noImp + 1) else noImp
+      let r := !(counted && !improved && decide (maxNo < noImp + 1))
+      { cb := .noImprove id maxNo minEvals pb noImp' (nc + 1) num, ext := x, ok := r,
+        evs := [⟨id, .step, nc + 1, num, 0, r⟩], fail := x.pbest.isNone }
+    | _ => { cb := .noImprove id maxNo minEvals lastBest noImp nc nt, ext := x, ok := true, evs := [] }
 
 /-- Invoke entry point `c` on every callback of a list, in order; AND of the answers. -/
 def Cb.callL (dones : Dones) (c : Call) : List Cb → Ext → ResL
@@ -240,9 +305,11 @@ end
 
 /-- `learn(callback=[…])` with a python list: `_init_callback` wraps the list into a *new*
 `CallbackList` on every `learn` call, so the root's own counters start from zero each time
-(the children are the same objects). -/
+(the children are the same objects). Likewise a bare function is wrapped into a new `ConvertCallback`
+each time (the function itself — its own invocation count — persists). -/
 def Cb.freshRoot : Cb → Cb
   | .list id _ _ cs => .list id 0 0 cs
+  | .fn id stops fc _ _ _ => .fn id stops fc 0 0 0
   | t => t
 
 /-! ### Feeding a sequence of entry-point calls to a tree -/
@@ -308,7 +375,10 @@ def Cb.ids : Cb → List Nat
   | .everyN id _ _ _ _ ch => id :: ch.ids
   | .eval id _ _ _ _ a b => id :: (a.ids ++ b.ids)
   | .checkpoint id _ _ _ => [id]
-  | .maxEp id _ _ _ _ _ => [id]
+  | .maxEp id _ _ _ _ _ _ => [id]
+  | .fn id _ _ _ _ _ => [id]
+  | .rewardThr id _ _ _ => [id]
+  | .noImprove id _ _ _ _ _ _ => [id]
 def Cb.idsL : List Cb → List Nat
   | [] => []
   | t :: ts => t.ids ++ Cb.idsL ts
@@ -324,7 +394,10 @@ def Cb.attrs : Cb → List (Nat × Nat × Nat × Nat)
   | .everyN id _ last nc nt ch => (id, nc, nt, last) :: ch.attrs
   | .eval id _ nc nt _ a b => (id, nc, nt, 0) :: (a.attrs ++ b.attrs)
   | .checkpoint id _ nc nt => [(id, nc, nt, 0)]
-  | .maxEp id _ nEp nc nt _ => [(id, nc, nt, nEp)]
+  | .maxEp id _ _ nEp nc nt _ => [(id, nc, nt, nEp)]
+  | .fn id _ _ nc nt loc => [(id, nc, nt, loc)]
+  | .rewardThr id _ nc nt => [(id, nc, nt, 0)]
+  | .noImprove id _ _ _ noImp nc nt => [(id, nc, nt, noImp)]
 def Cb.attrsL : List Cb → List (Nat × Nat × Nat × Nat)
   | [] => []
   | t :: ts => t.attrs ++ Cb.attrsL ts
@@ -339,6 +412,9 @@ def Cb.bests : Cb → List (Nat × Option Rat)
   | .eval id _ _ _ best a b => (id, best) :: (a.bests ++ b.bests)
   | .checkpoint .. => []
   | .maxEp .. => []
+  | .fn .. => []
+  | .rewardThr .. => []
+  | .noImprove id _ _ lastBest _ _ _ => [(id, lastBest)]
 def Cb.bestsL : List Cb → List (Nat × Option Rat)
   | [] => []
   | t :: ts => t.bests ++ Cb.bestsL ts
@@ -524,6 +600,33 @@ def eventsOfKind (id : Nat) (k : Kind) (evs : List Event) : List Event :=
 `freq` divides `i`; the event carries `i` and the `num_timesteps` of that very step. -/
 def everyKthCall (id : Nat) (kind : Kind) (freq nc : Nat) (nums : List Nat) : List Event :=
   ((nums.zipIdx (nc + 1)).filter (fun p => p.2 % freq == 0)).map (fun p => ⟨id, kind, p.2, p.1, 0, true⟩)
+
+/-- Episodes finished during the vectorised steps `g0+1 … g0+i` (all sub-environments). -/
+def cumDones (dones : Dones) : Nat → Nat → Nat
+  | _, 0 => 0
+  | g0, i + 1 => dones (g0 + 1) + cumDones dones (g0 + 1) i
+
+/-- Length of the leading run of `true` (histories are kept newest first). -/
+def streak : List Bool → Nat
+  | true :: l => streak l + 1
+  | _ => 0
+
+/-- A `StopTrainingOn…` child of an `EvalCallback` is stepped once per (new-best / every) evaluation and reads
+its parent's `best_mean_reward` each time: feed it the sequence of those values, collect its answers. -/
+def feedBests (dones : Dones) : Cb → Ext → List (Option Rat) → List Bool
+  | _, _, [] => []
+  | t, x, b :: bs =>
+    let r := t.call dones (.step 0) (x.setP (some b))
+    r.ok :: feedBests dones r.cb r.ext bs
+
+/-- Specification of `StopTrainingOnNoModelImprovement`: `h` = history of flags, newest first, flag of call `i`
+(`i` = `n_calls`) = "`i > min_evals` and the parent's best did not improve on the value seen at the previous
+call"; the answer is `False` exactly when the trailing run of such calls is longer than `max_no_improvement_evals`. -/
+def noImpSpec (maxNo minEvals : Nat) : List Bool → Nat → Option Rat → List (Option Rat) → List Bool
+  | _, _, _, [] => []
+  | h, nc, last, b :: bs =>
+    let h' := (decide (minEvals < nc + 1) && !gtBest b last) :: h
+    (!(decide (maxNo < streak h'))) :: noImpSpec maxNo minEvals h' (nc + 1) b bs
 
 /-- The calls `learn` makes on a top-level callback that never stops: used to state cadence
 theorems over whole `learn` histories. A segment = `trainingStart num0`, then `k` steps of `d`
